@@ -74,6 +74,9 @@ theorem Tr.access {q : Quirks} {P : Access → Prop} (c : Nat) (st : State) (a :
 theorem Tr.updConn {q : Quirks} {P : Access → Prop} (c : Nat) (st : State) (f : Conn → Conn) : Tr q P c st (Dbs.updConn st c f) :=
   ⟨Logs.of_eq rfl rfl, Others.updConn c st f⟩
 
+theorem Tr.outbox {q : Quirks} {P : Access → Prop} {c : Nat} {st st' : State} (o : List (Nat × Frame)) (h : Tr q P c st st') :
+    Tr q P c st { st' with outbox := o } := h.trans ⟨Logs.of_eq rfl rfl, Others.of_eq rfl⟩
+
 /-! ### The discipline of the machine: which database an access uses -/
 
 /-- Every access uses the prescribed database `sel`, except at the two places the switches describe. -/
@@ -164,23 +167,6 @@ theorem notify_tr (st : State) (c db : Nat) (k : Bytes) : Tr q (Disc w) c st (no
   · exact Tr.refl c st
   · exact ⟨Logs.of_eq rfl rfl, Others.of_eq rfl⟩
 
-theorem notifyN_tr (c db : Nat) (k : Bytes) (n : Nat) : ∀ (st : State), Tr q (Disc w) c st (notifyN n st db k) := by
-  induction n with
-  | zero => intro st; exact Tr.refl c st
-  | succ n ih => intro st; simp only [notifyN]; exact (notify_tr w q st c db k).trans (ih _)
-
-theorem doPush_tr (st : State) (c now : Nat) (path : Path) (cmd : List Bytes) :
-    Tr q (Disc w) c st (doPush q st c now path cmd).1 := by
-  unfold doPush
-  have h : Tr q (Disc w) c st (access q st { db := (st.conns c).db, sel := (st.conns c).db, conn := c, path := path, now := now, cmd := cmd, obs := none }).1 :=
-    Tr.access c st _ (Or.inl rfl)
-  simp only []
-  split
-  · split
-    · exact h.trans (notifyN_tr w q c _ _ _ _)
-    · exact h
-  · exact h
-
 theorem serve_tr (c now : Nat) (wks : List Wake) :
     ∀ (st : State) (out : List (Nat × Frame)), Tr q (Disc w) c st (serve q now st wks out).1 := by
   induction wks with
@@ -197,6 +183,24 @@ theorem serve_tr (c now : Nat) (wks : List Wake) :
 theorem processWakes_tr (st : State) (c now : Nat) : Tr q (Disc w) c st (processWakes q now st).1 := by
   unfold processWakes
   exact Tr.trans ⟨Logs.of_eq rfl rfl, Others.of_eq rfl⟩ (serve_tr w q c now st.wakes _ _)
+
+theorem notifyN_tr (c db : Nat) (k : Bytes) (n : Nat) : ∀ (st : State), Tr q (Disc w) c st (notifyN n st db k) := by
+  induction n with
+  | zero => intro st; exact Tr.refl c st
+  | succ n ih => intro st; simp only [notifyN]; exact (notify_tr w q st c db k).trans (ih _)
+
+theorem doPush_tr (st : State) (c now : Nat) (path : Path) (cmd : List Bytes) :
+    Tr q (Disc w) c st (doPush q st c now path cmd).1 := by
+  unfold doPush
+  have h : Tr q (Disc w) c st (access q st { db := (st.conns c).db, sel := (st.conns c).db, conn := c, path := path, now := now, cmd := cmd, obs := none }).1 :=
+    Tr.access c st _ (Or.inl rfl)
+  simp only []
+  split
+  · split
+    · refine Tr.outbox _ ?_
+      exact h.trans ((notifyN_tr w q c _ _ _ _).trans (processWakes_tr w q _ c now))
+    · exact h
+  · exact h
 
 theorem dispatch_tr (st : State) (c now : Nat) (inExec : Bool) (r : Req) :
     Tr q (Disc w) c st (dispatch w q st c now inExec r).1 := by
@@ -239,10 +243,12 @@ theorem exec_tr (st : State) (now c : Nat) (r : Req) : Tr q (Disc w) c st (exec 
       · split
         · split
           · exact Tr.refl c st
-          · exact (Tr.updConn c st _).trans ((execQueue_tr w q c now _ _).trans (processWakes_tr w q _ c now))
+          · refine Tr.outbox _ ?_
+            exact (Tr.updConn c st _).trans ((execQueue_tr w q c now _ _).trans (processWakes_tr w q _ c now))
         · split
           · exact Tr.updConn c st _
-          · exact (dispatch_tr w q st c now false r).trans (processWakes_tr w q _ c now)
+          · refine Tr.outbox _ ?_
+            exact (dispatch_tr w q st c now false r).trans (processWakes_tr w q _ c now)
 
 theorem run_logs (evs : List Ev) : ∀ (st : State), Logs q (Disc w) st (run w q st evs) := by
   induction evs with
@@ -277,6 +283,9 @@ theorem TrB.trans {q : Quirks} {i : Nat} {ns : Bool} {c : Nat} {a b d : State} (
 
 theorem TrB.access {q : Quirks} {i : Nat} {ns : Bool} {c : Nat} {st : State} (a : Access) (h : Stay i c st) (ha : PB i ns a) :
     TrB q i ns c st (access q st a).1 := ⟨Logs.access st a ha, h⟩
+
+theorem TrB.outbox {q : Quirks} {i : Nat} {ns : Bool} {c : Nat} {st st' : State} (o : List (Nat × Frame)) (h : TrB q i ns c st st') :
+    TrB q i ns c st { st' with outbox := o } := ⟨h.1.trans (Logs.of_eq rfl rfl), h.2⟩
 
 theorem isFlushAll_false_of_ne {cmd : List Bytes} (h : nameOf cmd ≠ "FLUSHALL") : isFlushAll cmd = false := by
   simp [isFlushAll, h]
@@ -362,27 +371,6 @@ theorem notify_B (st : State) (k : Bytes) (h : Stay i c st) : TrB q i ns c st (n
     · exact h.2 wk hwk
     · rw [hwk]; exact firstWaiter_db hf
 
-theorem notifyN_B (k : Bytes) (n : Nat) : ∀ (st : State), Stay i c st → TrB q i ns c st (notifyN n st i k) := by
-  induction n with
-  | zero => intro st h; exact TrB.refl h
-  | succ n ih => intro st h; simp only [notifyN]; exact (notify_B q i ns c st k h).trans (fun h' => ih _ h')
-
-theorem doPush_B (st : State) (now : Nat) (path : Path) (hpath : ∀ b, path ≠ .script b) (cmd : List Bytes)
-    (hn : nameOf cmd = "LPUSH" ∨ nameOf cmd = "RPUSH") (h : Stay i c st) :
-    TrB q i ns c st (doPush q st c now path cmd).1 := by
-  have hp : PB i ns { db := (st.conns c).db, sel := (st.conns c).db, conn := c, path := path, now := now, cmd := cmd, obs := none } :=
-    ⟨h.1, pushName_not_flushall hn, fun _ => hpath⟩
-  have ha := TrB.access (q := q) (c := c) _ h hp
-  unfold doPush
-  simp only []
-  split
-  · split
-    · refine ha.trans (fun h' => ?_)
-      rw [h.1]
-      exact notifyN_B q i ns c _ _ _ h'
-    · exact ha
-  · exact ha
-
 theorem stay_updConn {st : State} (d : Nat) (f : Conn → Conn) (hf : ∀ x, (f x).db = x.db) (h : Stay i c st) : Stay i c (Dbs.updConn st d f) := by
   refine ⟨?_, h.2⟩
   simp only [Dbs.updConn]
@@ -411,6 +399,28 @@ theorem processWakes_B (st : State) (now : Nat) (h : Stay i c st) : TrB q i ns c
   unfold processWakes
   refine TrB.trans (b := { st with wakes := [] }) ⟨Logs.of_eq rfl rfl, h.1, by simp⟩ (fun h' => ?_)
   exact serve_B q i ns c now st.wakes _ _ h.2 h'
+
+theorem notifyN_B (db : Nat) (hdb : db = i) (k : Bytes) (n : Nat) : ∀ (st : State), Stay i c st → TrB q i ns c st (notifyN n st db k) := by
+  subst hdb
+  induction n with
+  | zero => intro st h; exact TrB.refl h
+  | succ n ih => intro st h; simp only [notifyN]; exact (notify_B q db ns c st k h).trans (fun h' => ih _ h')
+
+theorem doPush_B (st : State) (now : Nat) (path : Path) (hpath : ∀ b, path ≠ .script b) (cmd : List Bytes)
+    (hn : nameOf cmd = "LPUSH" ∨ nameOf cmd = "RPUSH") (h : Stay i c st) :
+    TrB q i ns c st (doPush q st c now path cmd).1 := by
+  have hp : PB i ns { db := (st.conns c).db, sel := (st.conns c).db, conn := c, path := path, now := now, cmd := cmd, obs := none } :=
+    ⟨h.1, pushName_not_flushall hn, fun _ => hpath⟩
+  have ha := TrB.access (q := q) (c := c) _ h hp
+  unfold doPush
+  simp only []
+  split
+  · split
+    · refine ha.trans (fun h' => ?_)
+      refine TrB.outbox _ ?_
+      exact (notifyN_B q i ns c _ h.1 _ _ _ h').trans (fun h'' => processWakes_B q i ns c _ now h'')
+    · exact ha
+  · exact ha
 
 theorem dispatch_B (st : State) (now : Nat) (inExec : Bool) (r : Req) (hr : Clean ns r) (h : Stay i c st) :
     TrB q i ns c st (dispatch w q st c now inExec r).1 := by
@@ -467,11 +477,11 @@ theorem exec_B (st : State) (now : Nat) (r : Req) (hr : Clean ns r)
           · exact TrB.refl h
           · simp only []
             refine TrB.trans (upd (fun x => { x with inMulti := false, queue := [] }) (fun _ => rfl)) (fun h' => ?_)
-            exact (execQueue_B w q i ns c now _ (hq he) _ h').trans (fun h'' => processWakes_B q i ns c _ now h'')
+            exact (execQueue_B w q i ns c now _ (hq he) _ h').trans (fun h'' => TrB.outbox _ (processWakes_B q i ns c _ now h''))
         · split
           · exact upd _ (fun _ => rfl)
           · simp only []
-            exact (dispatch_B w q i ns c st now false r hr h).trans (fun h' => processWakes_B q i ns c _ now h')
+            exact (dispatch_B w q i ns c st now false r hr h).trans (fun h' => TrB.outbox _ (processWakes_B q i ns c _ now h'))
 
 end B
 
